@@ -318,7 +318,7 @@ def run(ctx):
             raise vlib.MachineryError('driver echo differs from what was sent: %r' % (c['toks'][:5],))
         tcases.append({'vals': [tlc_val(v) for v in c['vals']], 'text': c['toks'], 'seen': o['seen'], 'out': o['out'], 'ub': o['ub']})
     prej, irej = ucheck.conformance(ctx, os.path.join(A.SPEC, 'Conf_IpAcl.tla'), os.path.join(A.SPEC, 'Conf_IpAcl.cfg'), tcases, 'ip',
-                                    chunk=4000, timeout=3000)
+                                    chunk=4000 if ctx.thorough else 1400, timeout=3000)
     pairs = sum(len(o['out']) for o in outs)
     ctx.log('TLC evaluated %d lists / %d (list, address) pairs: P-rejected lists %d, I-rejected %d' % (len(outs), pairs, len(prej), len(irej)))
     # group the rejections by witness class; report the unexplained ('plain') ones first, at most two per class
